@@ -197,651 +197,6 @@ theorem merge_calls_ok :
 (computed on the SSA of `reWriteData` by dominance) -/
 theorem rewrite_under_lock : rewriteUnlocked = [] := by decide
 
-/-- the lines of ds/zset/sortedset.go that `Nuts.Model.Skiplist` was written from: every statement on a span,
-on `rank[]`, on `traversed`, every loop over levels, every search-loop condition, every score / forward test -/
-def expectedSpanStmts : List (String × String × String) := [
-  ("insertNode", "for", "i := ss.level - 1; i >= 0; i--"),
-  ("insertNode", "assign", "rank[i] = 0"),
-  ("insertNode", "assign", "rank[i] = rank[i+1]"),
-  ("insertNode", "while", "x.level[i].forward != nil && (x.level[i].forward.score < score || (x.level[i].forward.score == score && x.level[i].forward.key < key))"),
-  ("insertNode", "assign", "rank[i] += x.level[i].span"),
-  ("insertNode", "for", "i := ss.level; i < level; i++"),
-  ("insertNode", "assign", "rank[i] = 0"),
-  ("insertNode", "assign", "update[i].level[i].span = ss.length"),
-  ("insertNode", "for", "i := 0; i < level; i++"),
-  ("insertNode", "assign", "x.level[i].span = update[i].level[i].span - (rank[0] - rank[i])"),
-  ("insertNode", "assign", "update[i].level[i].span = (rank[0] - rank[i]) + 1"),
-  ("insertNode", "for", "i := level; i < ss.level; i++"),
-  ("insertNode", "incdec", "update[i].level[i].span++"),
-  ("insertNode", "if", "x.level[0].forward != nil"),
-  ("deleteNode", "for", "i := 0; i < ss.level; i++"),
-  ("deleteNode", "if", "update[i].level[i].forward == x"),
-  ("deleteNode", "assign", "update[i].level[i].span += x.level[i].span - 1"),
-  ("deleteNode", "assign", "update[i].level[i].span -= 1"),
-  ("deleteNode", "if", "x.level[0].forward != nil"),
-  ("deleteNode", "while", "ss.level > 1 && ss.header.level[ss.level-1].forward == nil"),
-  ("delete", "for", "i := ss.level - 1; i >= 0; i--"),
-  ("delete", "while", "x.level[i].forward != nil && (x.level[i].forward.score < score || (x.level[i].forward.score == score && x.level[i].forward.key < key))"),
-  ("delete", "if", "x != nil && score == x.score && x.key == key"),
-  ("Put", "if", "n.score == score"),
-  ("searchForward", "for", "i := ss.level - 1; i >= 0; i--"),
-  ("searchForward", "while", "x.level[i].forward != nil && x.level[i].forward.score <= start"),
-  ("searchForward", "for", "i := ss.level - 1; i >= 0; i--"),
-  ("searchForward", "while", "x.level[i].forward != nil && x.level[i].forward.score < start"),
-  ("searchForward", "while", "x != nil && limit > 0"),
-  ("searchForward", "if", "x.score >= end"),
-  ("searchForward", "if", "x.score > end"),
-  ("searchReverse", "for", "i := ss.level - 1; i >= 0; i--"),
-  ("searchReverse", "while", "x.level[i].forward != nil && x.level[i].forward.score < end"),
-  ("searchReverse", "for", "i := ss.level - 1; i >= 0; i--"),
-  ("searchReverse", "while", "x.level[i].forward != nil && x.level[i].forward.score <= end"),
-  ("searchReverse", "while", "x != nil && limit > 0"),
-  ("searchReverse", "if", "x.score <= start"),
-  ("searchReverse", "if", "x.score < start"),
-  ("GetByRankRange", "assign", "traversed = 0"),
-  ("GetByRankRange", "for", "i := ss.level - 1; i >= 0; i--"),
-  ("GetByRankRange", "while", "x.level[i].forward != nil && traversed+int(x.level[i].span) < start"),
-  ("GetByRankRange", "assign", "traversed += int(x.level[i].span)"),
-  ("GetByRankRange", "if", "traversed+1 == start"),
-  ("GetByRankRange", "incdec", "traversed++"),
-  ("GetByRankRange", "while", "x != nil && traversed <= end"),
-  ("GetByRankRange", "incdec", "traversed++"),
-  ("FindRank", "for", "i := ss.level - 1; i >= 0; i--"),
-  ("FindRank", "while", "x.level[i].forward != nil && (x.level[i].forward.score < node.score || (x.level[i].forward.score == node.score && x.level[i].forward.key <= node.key))"),
-  ("FindRank", "assign", "rank += int(x.level[i].span)")]
-
-/-- **the skiplist's span arithmetic and search conditions, regenerated.** The source lines listed above are
-the ones in the tree now (same functions, same order, same text): a changed span update, rank accumulation,
-loop condition or bound test in ds/zset breaks this obligation. -/
-theorem span_arithmetic_ok : spanStmts = expectedSpanStmts := by decide +kernel
-
-/-- the lines of bptree.go that `Nuts.Model.BPTree` was written from: the comparisons of the descent and of the
-leaf search, the loop headers, offset / limit counters and stop conditions of the leaf-chain scans, the
-capacity tests and split indexes of the insertion -/
-def expectedBptStmts : List (String × String × String) := [
-  ("FindLeaf", "for", "; !curr.isLeaf; "),
-  ("FindLeaf", "for", "; i < curr.KeysNum; "),
-  ("FindLeaf", "if", "compare(key, curr.Keys[i]) >= 0"),
-  ("getAll", "for", "; n != nil; "),
-  ("getAll", "for", "i = j; i < n.KeysNum; i++"),
-  ("getAll", "incdec", "numFound++"),
-  ("findRange", "for", "j = 0; j < n.KeysNum && compare(n.Keys[j], start) < 0; "),
-  ("findRange", "assign", "scanFlag = true"),
-  ("findRange", "for", "; n != nil && scanFlag; "),
-  ("findRange", "for", "i = j; i < n.KeysNum; i++"),
-  ("findRange", "if", "compare(n.Keys[i], end) > 0"),
-  ("findRange", "assign", "scanFlag = false"),
-  ("findRange", "incdec", "numFound++"),
-  ("PrefixScan", "for", "j = 0; j < n.KeysNum && compare(n.Keys[j], prefix) < 0; "),
-  ("PrefixScan", "assign", "scanFlag = true"),
-  ("PrefixScan", "assign", "numFound = 0"),
-  ("PrefixScan", "assign", "coff := 0"),
-  ("PrefixScan", "for", "; n != nil && scanFlag; "),
-  ("PrefixScan", "for", "i = j; i < n.KeysNum; i++"),
-  ("PrefixScan", "if", "!bytes.HasPrefix(n.Keys[i], prefix)"),
-  ("PrefixScan", "assign", "scanFlag = false"),
-  ("PrefixScan", "if", "coff < offsetNum"),
-  ("PrefixScan", "incdec", "coff++"),
-  ("PrefixScan", "incdec", "numFound++"),
-  ("PrefixScan", "if", "limitNum > 0 && numFound == limitNum"),
-  ("PrefixScan", "assign", "scanFlag = false"),
-  ("PrefixScan", "assign", "off = coff"),
-  ("PrefixSearchScan", "for", "j = 0; j < n.KeysNum && compare(n.Keys[j], prefix) < 0; "),
-  ("PrefixSearchScan", "assign", "scanFlag = true"),
-  ("PrefixSearchScan", "assign", "numFound = 0"),
-  ("PrefixSearchScan", "assign", "coff := 0"),
-  ("PrefixSearchScan", "for", "; n != nil && scanFlag; "),
-  ("PrefixSearchScan", "for", "i = j; i < n.KeysNum; i++"),
-  ("PrefixSearchScan", "if", "!bytes.HasPrefix(n.Keys[i], prefix)"),
-  ("PrefixSearchScan", "assign", "scanFlag = false"),
-  ("PrefixSearchScan", "if", "coff < offsetNum"),
-  ("PrefixSearchScan", "incdec", "coff++"),
-  ("PrefixSearchScan", "incdec", "numFound++"),
-  ("PrefixSearchScan", "if", "limitNum > 0 && numFound == limitNum"),
-  ("PrefixSearchScan", "assign", "scanFlag = false"),
-  ("PrefixSearchScan", "assign", "off = coff"),
-  ("Find", "for", "i = 0; i < leaf.KeysNum; i++"),
-  ("Find", "if", "compare(key, leaf.Keys[i]) == 0"),
-  ("Find", "if", "i == leaf.KeysNum"),
-  ("startNewTree", "assign", "t.root.KeysNum = 1"),
-  ("Insert", "if", "leaf.KeysNum < order-1"),
-  ("getSplitIndex", "return", "return length / 2"),
-  ("getSplitIndex", "return", "return length/2 + 1"),
-  ("splitLeaf", "assign", "tmpKeys := make([][]byte, order)"),
-  ("splitLeaf", "assign", "tmpPointers := make([]interface{}, order)"),
-  ("splitLeaf", "for", "; i < order-1; "),
-  ("splitLeaf", "if", "compare(leaf.Keys[i], key) < 0"),
-  ("splitLeaf", "for", "j = 0; j < leaf.KeysNum; j++"),
-  ("splitLeaf", "assign", "splitIndex := getSplitIndex(order)"),
-  ("splitLeaf", "assign", "leaf.KeysNum = 0"),
-  ("splitLeaf", "for", "i = 0; i < splitIndex; i++"),
-  ("splitLeaf", "incdec", "leaf.KeysNum++"),
-  ("splitLeaf", "for", "i = splitIndex; i < order; i++"),
-  ("splitLeaf", "assign", "i = splitIndex"),
-  ("splitLeaf", "incdec", "newLeaf.KeysNum++"),
-  ("splitLeaf", "if", "leaf.pointers[order-1] != nil"),
-  ("splitLeaf", "assign", "newLeaf.pointers[order-1] = leaf.pointers[order-1]"),
-  ("splitLeaf", "assign", "leaf.pointers[order-1] = newLeaf"),
-  ("insertIntoNewRoot", "incdec", "t.root.KeysNum++"),
-  ("insertIntoNode", "for", "i := node.KeysNum; i > leftIndex; i--"),
-  ("insertIntoNode", "assign", "i := node.KeysNum"),
-  ("insertIntoNode", "incdec", "node.KeysNum++"),
-  ("insertIntoParent", "for", "; leftIndex <= left.parent.KeysNum; "),
-  ("insertIntoParent", "if", "left.parent.KeysNum < order-1"),
-  ("splitParent", "assign", "tmpKeys := make([][]byte, order)"),
-  ("splitParent", "assign", "tmpPointers := make([]interface{}, order+1)"),
-  ("splitParent", "for", "i = 0; i < node.KeysNum; i++"),
-  ("splitParent", "for", "i = 0; i < node.KeysNum+1; i++"),
-  ("splitParent", "assign", "splitIndex := getSplitIndex(order - 1)"),
-  ("splitParent", "assign", "node.KeysNum = 0"),
-  ("splitParent", "for", "i = 0; i < splitIndex; i++"),
-  ("splitParent", "incdec", "node.KeysNum++"),
-  ("splitParent", "for", "; i < order; i++"),
-  ("splitParent", "incdec", "newNode.KeysNum++"),
-  ("splitParent", "for", "i = 0; i <= newNode.KeysNum; i++"),
-  ("splitParent", "assign", "newKey := tmpKeys[splitIndex]"),
-  ("insertIntoLeaf", "for", "; i < leaf.KeysNum; "),
-  ("insertIntoLeaf", "if", "compare(key, leaf.Keys[i]) > 0"),
-  ("insertIntoLeaf", "for", "j := leaf.KeysNum; j > i; j--"),
-  ("insertIntoLeaf", "assign", "j := leaf.KeysNum"),
-  ("insertIntoLeaf", "incdec", "leaf.KeysNum++")]
-
-/-- **the B+ tree's comparisons, scan loops and split rules, regenerated.** The source lines listed above are
-the ones in the tree now (same functions, same order, same text). -/
-theorem bpt_statements_ok : bptStmts = expectedBptStmts := by decide +kernel
-
-/-- the conditions and loop headers of the key/value read path of tx_bptree.go that the models of the RAM modes
-(`Nuts.Model.DB`: `get`, `getAll`, `rangeScan`, `prefixScan`, `wrapper`) and of the sparse mode
-(`Nuts.Model.Sparse`: `get`, `getOnDisk`, `rangeSelects`, `processEntries`, …) were written from -/
-def expectedReadPathStmts : List (String × String × String) := [
-  ("getByHintBPTSparseIdxInMem", "if", "err == nil && r != nil"),
-  ("getByHintBPTSparseIdxOnDisk", "range", "tx.db.BPTreeRootIdxes"),
-  ("getByHintBPTSparseIdxOnDisk", "sort", "SortFID(bptSparseIdxGroup, func(p, q *BPTreeRootIdx) bool { return p.fID > q.fID })"),
-  ("getByHintBPTSparseIdxOnDisk", "range", "bptSparseIdxGroup"),
-  ("getByHintBPTSparseIdxOnDisk", "if", "compare(newKey, bptSparse.start) >= 0 && compare(newKey, bptSparse.end) <= 0"),
-  ("getByHintBPTSparseIdxOnDisk", "if", "err == nil && e != nil"),
-  ("getByHintBPTSparseIdxOnDisk", "if", "e.Meta.Flag == DataDeleteFlag || IsExpired(e.Meta.TTL, e.Meta.timestamp)"),
-  ("getByHintBPTSparseIdxOnDisk", "if", "!ok"),
-  ("getByHintBPTSparseIdx", "if", "entry != nil && err == nil"),
-  ("getByHintBPTSparseIdx", "if", "entry.Meta.Flag == DataDeleteFlag || IsExpired(entry.Meta.TTL, entry.Meta.timestamp)"),
-  ("getByHintBPTSparseIdx", "if", "entry != nil && err == nil"),
-  ("Get", "if", "idxMode == HintBPTSparseIdxMode"),
-  ("Get", "if", "idxMode == HintKeyValAndRAMIdxMode || idxMode == HintKeyAndRAMIdxMode"),
-  ("Get", "if", "ok"),
-  ("Get", "if", "!ok"),
-  ("Get", "if", "r.H.meta.Flag == DataDeleteFlag || r.IsExpired()"),
-  ("Get", "if", "idxMode == HintKeyValAndRAMIdxMode"),
-  ("Get", "if", "idxMode == HintKeyAndRAMIdxMode"),
-  ("GetAll", "if", "idxMode == HintBPTSparseIdxMode"),
-  ("GetAll", "if", "idxMode == HintKeyValAndRAMIdxMode || idxMode == HintKeyAndRAMIdxMode"),
-  ("GetAll", "if", "ok"),
-  ("GetAll", "if", "len(entries) == 0"),
-  ("RangeScan", "if", "tx.db.opt.EntryIdxMode == HintBPTSparseIdxMode"),
-  ("RangeScan", "if", "err == nil && records != nil"),
-  ("RangeScan", "range", "records"),
-  ("RangeScan", "if", "len(es) == 0"),
-  ("RangeScan", "if", "ok"),
-  ("RangeScan", "if", "len(es) == 0"),
-  ("rangeScanOnDisk", "sort", "SortFID(bptSparseIdxGroup, func(p, q *BPTreeRootIdx) bool { return p.fID > q.fID })"),
-  ("rangeScanOnDisk", "range", "bptSparseIdxGroup"),
-  ("rangeScanOnDisk", "if", "compare(newStart, bptSparseIdx.start) <= 0 && compare(bptSparseIdx.start, newEnd) <= 0 || compare(newStart, bptSparseIdx.end) <= 0 && compare(bptSparseIdx.end, newEnd) <= 0"),
-  ("prefixScanOnDisk", "sort", "SortFID(bptSparseIdxGroup, func(p, q *BPTreeRootIdx) bool { return p.fID > q.fID })"),
-  ("prefixScanOnDisk", "range", "bptSparseIdxGroup"),
-  ("prefixScanOnDisk", "if", "compare(newPrefix, bptSparseIdx.start) <= 0 || compare(newPrefix, bptSparseIdx.end) <= 0"),
-  ("prefixScanOnDisk", "if", "len(result) == limitNum"),
-  ("prefixSearchScanOnDisk", "sort", "SortFID(bptSparseIdxGroup, func(p, q *BPTreeRootIdx) bool { return p.fID > q.fID })"),
-  ("prefixSearchScanOnDisk", "range", "bptSparseIdxGroup"),
-  ("prefixSearchScanOnDisk", "if", "compare(newPrefix, bptSparseIdx.start) <= 0 || compare(newPrefix, bptSparseIdx.end) <= 0"),
-  ("prefixSearchScanOnDisk", "if", "len(result) == limitNum"),
-  ("processEntriesScanOnDisk", "range", "entriesTemp"),
-  ("processEntriesScanOnDisk", "if", "!ok"),
-  ("processEntriesScanOnDisk", "range", "keys"),
-  ("processEntriesScanOnDisk", "if", "!IsExpired(es[key].Meta.TTL, es[key].Meta.timestamp) && es[key].Meta.Flag != DataDeleteFlag"),
-  ("prefixScanByHintBPTSparseIdx", "if", "err == nil && records != nil"),
-  ("prefixScanByHintBPTSparseIdx", "range", "records"),
-  ("prefixScanByHintBPTSparseIdx", "if", "len(es) == limitNum"),
-  ("prefixScanByHintBPTSparseIdx", "if", "leftNum > 0"),
-  ("prefixScanByHintBPTSparseIdx", "if", "len(es) == 0"),
-  ("prefixSearchScanByHintBPTSparseIdx", "if", "err == nil && records != nil"),
-  ("prefixSearchScanByHintBPTSparseIdx", "range", "records"),
-  ("prefixSearchScanByHintBPTSparseIdx", "if", "len(es) == limitNum"),
-  ("prefixSearchScanByHintBPTSparseIdx", "if", "leftNum > 0"),
-  ("prefixSearchScanByHintBPTSparseIdx", "if", "len(es) == 0"),
-  ("PrefixScan", "if", "tx.db.opt.EntryIdxMode == HintBPTSparseIdxMode"),
-  ("PrefixScan", "if", "ok"),
-  ("PrefixScan", "if", "len(es) == 0"),
-  ("PrefixSearchScan", "if", "tx.db.opt.EntryIdxMode == HintBPTSparseIdxMode"),
-  ("PrefixSearchScan", "if", "ok"),
-  ("PrefixSearchScan", "if", "len(es) == 0"),
-  ("getHintIdxDataItemsWrapper", "range", "records"),
-  ("getHintIdxDataItemsWrapper", "if", "r.H.meta.Flag == DataDeleteFlag || r.IsExpired()"),
-  ("getHintIdxDataItemsWrapper", "if", "limitNum > 0 && len(es) < limitNum || limitNum == ScanNoLimit"),
-  ("getHintIdxDataItemsWrapper", "if", "idxMode == HintKeyAndRAMIdxMode"),
-  ("getHintIdxDataItemsWrapper", "if", "idxMode == HintKeyValAndRAMIdxMode")]
-
-/-- **the read path, regenerated**: dead-record tests, mode dispatch, segment-selection tests, newest-first order,
-limit tests — the lines listed above are the ones in the tree now. -/
-theorem read_path_ok : readPathStmts = expectedReadPathStmts := by decide +kernel
-
-/-- the lines of tx.go and db.go that `applyKV` / `applyList` / `applySet` / `applyZSet`, `rotate`, `replay` and
-`openDB` of `Nuts.Model.DB` (and the sparse commit of `Nuts.Model.Sparse`) were written from: the dispatch on
-the record flag, the argument parsing, the structure calls, at Commit and at Open -/
-def expectedApplierStmts : List (String × String × String) := [
-  ("db.go:getActiveFileWriteOff", "for", "; ; "),
-  ("db.go:getActiveFileWriteOff", "call", "db.ActiveFile.ReadAt(int(off))"),
-  ("db.go:getActiveFileWriteOff", "if", "item == nil"),
-  ("db.go:getActiveFileWriteOff", "call", "item.Size()"),
-  ("db.go:getActiveFileWriteOff", "if", "off >= db.opt.SegmentSize"),
-  ("db.go:getActiveFileWriteOff", "if", "err == io.EOF"),
-  ("db.go:getActiveFileWriteOff", "return", "fmt.Errorf(\"when build activeDataIndex readAt err: %s\", err)"),
-  ("db.go:parseDataFiles", "if", "db.opt.EntryIdxMode == HintBPTSparseIdxMode"),
-  ("db.go:parseDataFiles", "range", "dataFileIds"),
-  ("db.go:parseDataFiles", "call", "int64(dataID)"),
-  ("db.go:parseDataFiles", "call", "NewDataFile(db.getDataPath(fID), db.opt.SegmentSize, db.opt.StartFileLoadingMode)"),
-  ("db.go:parseDataFiles", "for", "; ; "),
-  ("db.go:parseDataFiles", "call", "f.ReadAt(int(off))"),
-  ("db.go:parseDataFiles", "if", "entry == nil"),
-  ("db.go:parseDataFiles", "if", "db.opt.EntryIdxMode == HintKeyValAndRAMIdxMode"),
-  ("db.go:parseDataFiles", "if", "entry.Meta.status == Committed"),
-  ("db.go:parseDataFiles", "call", "db.ActiveCommittedTxIdsIdx.Insert([]byte(strconv2.Int64ToStr(int64(entry.Meta.txID))), nil, &Hint{meta: &MetaData{Flag: DataSetFlag}}, CountFlagEnabled)"),
-  ("db.go:parseDataFiles", "call", "append(unconfirmedRecords, &Record{ H: &Hint{ key: entry.Key, fileID: fID, meta: entry.Meta, dataPos: uint64(off), }, E: e, })"),
-  ("db.go:parseDataFiles", "if", "db.opt.EntryIdxMode == HintBPTSparseIdxMode"),
-  ("db.go:parseDataFiles", "call", "entry.Size()"),
-  ("db.go:parseDataFiles", "if", "err == io.EOF"),
-  ("db.go:parseDataFiles", "if", "off >= db.opt.SegmentSize"),
-  ("db.go:parseDataFiles", "call", "f.rwManager.Close()"),
-  ("db.go:parseDataFiles", "return", "fmt.Errorf(\"when build hintIndex readAt err: %s\", err)"),
-  ("db.go:parseDataFiles", "call", "f.rwManager.Close()"),
-  ("db.go:buildBPTreeIdx", "if", "!ok"),
-  ("db.go:buildBPTreeIdx", "call", "NewTree()"),
-  ("db.go:buildBPTreeIdx", "call", "db.BPTreeIdx[bucket].Insert(r.H.key, r.E, r.H, CountFlagEnabled)"),
-  ("db.go:buildBPTreeIdx", "return", "fmt.Errorf(\"when build BPTreeIdx insert index err: %s\", err)"),
-  ("db.go:buildActiveBPTreeIdx", "call", "append(newKey, r.H.key...)"),
-  ("db.go:buildActiveBPTreeIdx", "call", "db.ActiveBPTreeIdx.Insert(newKey, r.E, r.H, CountFlagEnabled)"),
-  ("db.go:buildActiveBPTreeIdx", "return", "fmt.Errorf(\"when build BPTreeIdx insert index err: %s\", err)"),
-  ("db.go:buildOtherIdxes", "if", "r.H.meta.ds == DataStructureSet"),
-  ("db.go:buildOtherIdxes", "call", "db.buildSetIdx(bucket, r)"),
-  ("db.go:buildOtherIdxes", "if", "r.H.meta.ds == DataStructureSortedSet"),
-  ("db.go:buildOtherIdxes", "call", "db.buildSortedSetIdx(bucket, r)"),
-  ("db.go:buildOtherIdxes", "if", "r.H.meta.ds == DataStructureList"),
-  ("db.go:buildOtherIdxes", "call", "db.buildListIdx(bucket, r)"),
-  ("db.go:buildHintIdx", "call", "db.parseDataFiles(dataFileIds)"),
-  ("db.go:buildHintIdx", "if", "len(unconfirmedRecords) == 0"),
-  ("db.go:buildHintIdx", "range", "unconfirmedRecords"),
-  ("db.go:buildHintIdx", "if", "ok"),
-  ("db.go:buildHintIdx", "if", "r.H.meta.ds == DataStructureBPTree"),
-  ("db.go:buildHintIdx", "if", "db.opt.EntryIdxMode == HintBPTSparseIdxMode"),
-  ("db.go:buildHintIdx", "call", "db.buildActiveBPTreeIdx(r)"),
-  ("db.go:buildHintIdx", "call", "db.buildBPTreeIdx(bucket, r)"),
-  ("db.go:buildHintIdx", "call", "db.buildOtherIdxes(bucket, r)"),
-  ("db.go:buildHintIdx", "if", "HintBPTSparseIdxMode == db.opt.EntryIdxMode"),
-  ("db.go:buildHintIdx", "call", "db.buildBPTreeRootIdxes(dataFileIds)"),
-  ("db.go:buildSetIdx", "if", "!ok"),
-  ("db.go:buildSetIdx", "call", "set.New()"),
-  ("db.go:buildSetIdx", "if", "r.E == nil"),
-  ("db.go:buildSetIdx", "if", "r.H.meta.Flag == DataSetFlag"),
-  ("db.go:buildSetIdx", "call", "db.SetIdx[bucket].SAdd(string(r.E.Key), r.E.Value)"),
-  ("db.go:buildSetIdx", "return", "fmt.Errorf(\"when build SetIdx SAdd index err: %s\", err)"),
-  ("db.go:buildSetIdx", "if", "r.H.meta.Flag == DataDeleteFlag"),
-  ("db.go:buildSetIdx", "call", "db.SetIdx[bucket].SRem(string(r.E.Key), r.E.Value)"),
-  ("db.go:buildSortedSetIdx", "if", "!ok"),
-  ("db.go:buildSortedSetIdx", "call", "zset.New()"),
-  ("db.go:buildSortedSetIdx", "if", "r.E == nil"),
-  ("db.go:buildSortedSetIdx", "if", "r.H.meta.Flag == DataZAddFlag"),
-  ("db.go:buildSortedSetIdx", "call", "strings.Split(string(r.E.Key), SeparatorForZSetKey)"),
-  ("db.go:buildSortedSetIdx", "if", "len(keyAndScore) == 2"),
-  ("db.go:buildSortedSetIdx", "call", "strconv2.StrToFloat64(keyAndScore[1])"),
-  ("db.go:buildSortedSetIdx", "call", "db.SortedSetIdx[bucket].Put(key, zset.SCORE(score), r.E.Value)"),
-  ("db.go:buildSortedSetIdx", "if", "r.H.meta.Flag == DataZRemFlag"),
-  ("db.go:buildSortedSetIdx", "call", "db.SortedSetIdx[bucket].Remove(string(r.E.Key))"),
-  ("db.go:buildSortedSetIdx", "if", "r.H.meta.Flag == DataZRemRangeByRankFlag"),
-  ("db.go:buildSortedSetIdx", "call", "strconv2.StrToInt(string(r.E.Key))"),
-  ("db.go:buildSortedSetIdx", "call", "strconv2.StrToInt(string(r.E.Value))"),
-  ("db.go:buildSortedSetIdx", "call", "db.SortedSetIdx[bucket].GetByRankRange(start, end, true)"),
-  ("db.go:buildSortedSetIdx", "if", "r.H.meta.Flag == DataZPopMaxFlag"),
-  ("db.go:buildSortedSetIdx", "call", "db.SortedSetIdx[bucket].PopMax()"),
-  ("db.go:buildSortedSetIdx", "if", "r.H.meta.Flag == DataZPopMinFlag"),
-  ("db.go:buildSortedSetIdx", "call", "db.SortedSetIdx[bucket].PopMin()"),
-  ("db.go:buildListIdx", "if", "!ok"),
-  ("db.go:buildListIdx", "call", "list.New()"),
-  ("db.go:buildListIdx", "if", "r.E == nil"),
-  ("db.go:buildListIdx", "switch", "r.H.meta.Flag"),
-  ("db.go:buildListIdx", "case", "DataLPushFlag"),
-  ("db.go:buildListIdx", "call", "db.ListIdx[bucket].LPush(string(r.E.Key), r.E.Value)"),
-  ("db.go:buildListIdx", "case", "DataRPushFlag"),
-  ("db.go:buildListIdx", "call", "db.ListIdx[bucket].RPush(string(r.E.Key), r.E.Value)"),
-  ("db.go:buildListIdx", "case", "DataLRemFlag"),
-  ("db.go:buildListIdx", "call", "strings.SplitN(string(r.E.Value), SeparatorForListKey, 2)"),
-  ("db.go:buildListIdx", "call", "strconv2.StrToInt(countAndValueIndex[0])"),
-  ("db.go:buildListIdx", "call", "[]byte(countAndValueIndex[1])"),
-  ("db.go:buildListIdx", "call", "db.ListIdx[bucket].LRem(string(r.E.Key), count, value)"),
-  ("db.go:buildListIdx", "case", "DataLPopFlag"),
-  ("db.go:buildListIdx", "call", "db.ListIdx[bucket].LPop(string(r.E.Key))"),
-  ("db.go:buildListIdx", "case", "DataRPopFlag"),
-  ("db.go:buildListIdx", "call", "db.ListIdx[bucket].RPop(string(r.E.Key))"),
-  ("db.go:buildListIdx", "case", "DataLSetFlag"),
-  ("db.go:buildListIdx", "call", "strings.Split(string(r.E.Key), SeparatorForListKey)"),
-  ("db.go:buildListIdx", "call", "strconv2.StrToInt(keyAndIndex[1])"),
-  ("db.go:buildListIdx", "call", "db.ListIdx[bucket].LSet(newKey, index, r.E.Value)"),
-  ("db.go:buildListIdx", "case", "DataLTrimFlag"),
-  ("db.go:buildListIdx", "call", "strings.Split(string(r.E.Key), SeparatorForListKey)"),
-  ("db.go:buildListIdx", "call", "strconv2.StrToInt(keyAndStartIndex[1])"),
-  ("db.go:buildListIdx", "call", "strconv2.StrToInt(string(r.E.Value))"),
-  ("db.go:buildListIdx", "call", "db.ListIdx[bucket].Ltrim(newKey, start, end)"),
-  ("tx.go:buildTempBucketMetaIdx", "call", "uint32(len(key))"),
-  ("tx.go:buildTempBucketMetaIdx", "if", "bucketMetaTemp.start == nil"),
-  ("tx.go:buildTempBucketMetaIdx", "if", "compare(bucketMetaTemp.start, key) > 0"),
-  ("tx.go:buildTempBucketMetaIdx", "if", "compare(bucketMetaTemp.end, key) < 0"),
-  ("tx.go:buildBucketMetaIdx", "call", "uint32(len(start))"),
-  ("tx.go:buildBucketMetaIdx", "call", "uint32(len(end))"),
-  ("tx.go:buildBucketMetaIdx", "if", "!ok"),
-  ("tx.go:buildBucketMetaIdx", "if", "compare(bucketMeta.start, bucketMetaTemp.start) > 0"),
-  ("tx.go:buildBucketMetaIdx", "if", "compare(bucketMeta.end, bucketMetaTemp.end) < 0"),
-  ("tx.go:buildBucketMetaIdx", "if", "updateFlag"),
-  ("tx.go:buildBucketMetaIdx", "call", "os.OpenFile(tx.db.getBucketMetaFilePath(bucket), os.O_CREATE|os.O_RDWR, 0644)"),
-  ("tx.go:buildBucketMetaIdx", "call", "fd.WriteAt(bucketMeta.Encode(), 0)"),
-  ("tx.go:buildBucketMetaIdx", "if", "tx.db.opt.SyncEnable"),
-  ("tx.go:buildBucketMetaIdx", "call", "fd.Sync()"),
-  ("tx.go:buildTxIDRootIdx", "call", "strconv2.IntToStr(int(txID))"),
-  ("tx.go:buildTxIDRootIdx", "call", "tx.db.ActiveCommittedTxIdsIdx.Insert([]byte(txIDStr), nil, &Hint{meta: &MetaData{Flag: DataSetFlag}}, countFlag)"),
-  ("tx.go:buildTxIDRootIdx", "if", "len(tx.ReservedStoreTxIDIdxes) > 0"),
-  ("tx.go:buildTxIDRootIdx", "range", "tx.ReservedStoreTxIDIdxes"),
-  ("tx.go:buildTxIDRootIdx", "call", "tx.db.getBPTTxIDPath(fID)"),
-  ("tx.go:buildTxIDRootIdx", "call", "txIDIdx.Insert([]byte(txIDStr), nil, &Hint{meta: &MetaData{Flag: DataSetFlag}}, countFlag)"),
-  ("tx.go:buildTxIDRootIdx", "call", "txIDIdx.WriteNodes(tx.db.opt.RWMode, tx.db.opt.SyncEnable, 2)"),
-  ("tx.go:buildTxIDRootIdx", "call", "tx.db.getBPTRootTxIDPath(fID)"),
-  ("tx.go:buildTxIDRootIdx", "call", "NewTree()"),
-  ("tx.go:buildTxIDRootIdx", "call", "strconv2.Int64ToStr(txIDIdx.root.Address)"),
-  ("tx.go:buildTxIDRootIdx", "call", "txIDRootIdx.Insert([]byte(rootAddress), nil, &Hint{meta: &MetaData{Flag: DataSetFlag}}, countFlag)"),
-  ("tx.go:buildTxIDRootIdx", "call", "txIDRootIdx.WriteNodes(tx.db.opt.RWMode, tx.db.opt.SyncEnable, 2)"),
-  ("tx.go:buildIdxes", "for", "i := 0; i < writesLen; i++"),
-  ("tx.go:buildIdxes", "if", "entry.Meta.ds == DataStructureSet"),
-  ("tx.go:buildIdxes", "call", "tx.buildSetIdx(bucket, entry)"),
-  ("tx.go:buildIdxes", "if", "entry.Meta.ds == DataStructureSortedSet"),
-  ("tx.go:buildIdxes", "call", "tx.buildSortedSetIdx(bucket, entry)"),
-  ("tx.go:buildIdxes", "if", "entry.Meta.ds == DataStructureList"),
-  ("tx.go:buildIdxes", "call", "tx.buildListIdx(bucket, entry)"),
-  ("tx.go:buildBPTreeIdx", "if", "tx.db.opt.EntryIdxMode == HintBPTSparseIdxMode"),
-  ("tx.go:buildBPTreeIdx", "call", "[]byte(bucket)"),
-  ("tx.go:buildBPTreeIdx", "call", "append(newKey, entry.Key...)"),
-  ("tx.go:buildBPTreeIdx", "call", "tx.db.ActiveBPTreeIdx.Insert(newKey, e, &Hint{ fileID: tx.db.ActiveFile.fileID, key: newKey, meta: entry.Meta, dataPos: uint64(off), }, countFlag)"),
-  ("tx.go:buildBPTreeIdx", "if", "!ok"),
-  ("tx.go:buildBPTreeIdx", "call", "NewTree()"),
-  ("tx.go:buildBPTreeIdx", "if", "tx.db.BPTreeIdx[bucket] == nil"),
-  ("tx.go:buildBPTreeIdx", "call", "NewTree()"),
-  ("tx.go:buildBPTreeIdx", "call", "tx.db.BPTreeIdx[bucket].Insert(entry.Key, e, &Hint{ fileID: tx.db.ActiveFile.fileID, key: entry.Key, meta: entry.Meta, dataPos: uint64(off), }, countFlag)"),
-  ("tx.go:buildSetIdx", "if", "!ok"),
-  ("tx.go:buildSetIdx", "call", "set.New()"),
-  ("tx.go:buildSetIdx", "if", "entry.Meta.Flag == DataDeleteFlag"),
-  ("tx.go:buildSetIdx", "call", "tx.db.SetIdx[bucket].SRem(string(entry.Key), entry.Value)"),
-  ("tx.go:buildSetIdx", "if", "entry.Meta.Flag == DataSetFlag"),
-  ("tx.go:buildSetIdx", "call", "tx.db.SetIdx[bucket].SAdd(string(entry.Key), entry.Value)"),
-  ("tx.go:buildSortedSetIdx", "if", "!ok"),
-  ("tx.go:buildSortedSetIdx", "call", "zset.New()"),
-  ("tx.go:buildSortedSetIdx", "switch", "entry.Meta.Flag"),
-  ("tx.go:buildSortedSetIdx", "case", "DataZAddFlag"),
-  ("tx.go:buildSortedSetIdx", "call", "strings.Split(string(entry.Key), SeparatorForZSetKey)"),
-  ("tx.go:buildSortedSetIdx", "call", "strconv2.StrToFloat64(keyAndScore[1])"),
-  ("tx.go:buildSortedSetIdx", "call", "tx.db.SortedSetIdx[bucket].Put(key, zset.SCORE(score), entry.Value)"),
-  ("tx.go:buildSortedSetIdx", "case", "DataZRemFlag"),
-  ("tx.go:buildSortedSetIdx", "call", "tx.db.SortedSetIdx[bucket].Remove(string(entry.Key))"),
-  ("tx.go:buildSortedSetIdx", "case", "DataZRemRangeByRankFlag"),
-  ("tx.go:buildSortedSetIdx", "call", "strconv2.StrToInt(string(entry.Key))"),
-  ("tx.go:buildSortedSetIdx", "call", "strconv2.StrToInt(string(entry.Value))"),
-  ("tx.go:buildSortedSetIdx", "call", "tx.db.SortedSetIdx[bucket].GetByRankRange(start, end, true)"),
-  ("tx.go:buildSortedSetIdx", "case", "DataZPopMaxFlag"),
-  ("tx.go:buildSortedSetIdx", "call", "tx.db.SortedSetIdx[bucket].PopMax()"),
-  ("tx.go:buildSortedSetIdx", "case", "DataZPopMinFlag"),
-  ("tx.go:buildSortedSetIdx", "call", "tx.db.SortedSetIdx[bucket].PopMin()"),
-  ("tx.go:buildListIdx", "if", "!ok"),
-  ("tx.go:buildListIdx", "call", "list.New()"),
-  ("tx.go:buildListIdx", "switch", "entry.Meta.Flag"),
-  ("tx.go:buildListIdx", "case", "DataLPushFlag"),
-  ("tx.go:buildListIdx", "call", "tx.db.ListIdx[bucket].LPush(string(key), value)"),
-  ("tx.go:buildListIdx", "case", "DataRPushFlag"),
-  ("tx.go:buildListIdx", "call", "tx.db.ListIdx[bucket].RPush(string(key), value)"),
-  ("tx.go:buildListIdx", "case", "DataLRemFlag"),
-  ("tx.go:buildListIdx", "call", "strings.SplitN(string(value), SeparatorForListKey, 2)"),
-  ("tx.go:buildListIdx", "call", "strconv2.StrToInt(countAndValue[0])"),
-  ("tx.go:buildListIdx", "call", "tx.db.ListIdx[bucket].LRem(string(key), count, []byte(newValue))"),
-  ("tx.go:buildListIdx", "case", "DataLPopFlag"),
-  ("tx.go:buildListIdx", "call", "tx.db.ListIdx[bucket].LPop(string(key))"),
-  ("tx.go:buildListIdx", "case", "DataRPopFlag"),
-  ("tx.go:buildListIdx", "call", "tx.db.ListIdx[bucket].RPop(string(key))"),
-  ("tx.go:buildListIdx", "case", "DataLSetFlag"),
-  ("tx.go:buildListIdx", "call", "strings.Split(string(key), SeparatorForListKey)"),
-  ("tx.go:buildListIdx", "call", "strconv2.StrToInt(keyAndIndex[1])"),
-  ("tx.go:buildListIdx", "call", "tx.db.ListIdx[bucket].LSet(newKey, index, value)"),
-  ("tx.go:buildListIdx", "case", "DataLTrimFlag"),
-  ("tx.go:buildListIdx", "call", "strings.Split(string(key), SeparatorForListKey)"),
-  ("tx.go:buildListIdx", "call", "strconv2.StrToInt(keyAndStartIndex[1])"),
-  ("tx.go:buildListIdx", "call", "strconv2.StrToInt(string(value))"),
-  ("tx.go:buildListIdx", "call", "tx.db.ListIdx[bucket].Ltrim(newKey, start, end)"),
-  ("tx.go:rotateActiveFile", "if", "!tx.db.opt.SyncEnable && tx.db.opt.RWMode == MMap"),
-  ("tx.go:rotateActiveFile", "call", "tx.db.ActiveFile.rwManager.Sync()"),
-  ("tx.go:rotateActiveFile", "call", "tx.db.ActiveFile.rwManager.Close()"),
-  ("tx.go:rotateActiveFile", "if", "tx.db.opt.EntryIdxMode == HintBPTSparseIdxMode"),
-  ("tx.go:rotateActiveFile", "call", "tx.db.getBPTPath(fID)"),
-  ("tx.go:rotateActiveFile", "call", "tx.db.ActiveBPTreeIdx.SetKeyPosMap(tx.db.BPTreeKeyEntryPosMap)"),
-  ("tx.go:rotateActiveFile", "call", "tx.db.ActiveBPTreeIdx.WriteNodes(tx.db.opt.RWMode, tx.db.opt.SyncEnable, 1)"),
-  ("tx.go:rotateActiveFile", "call", "BPTreeRootIdx.Persistence(tx.db.getBPTRootPath(fID), 0, tx.db.opt.SyncEnable)"),
-  ("tx.go:rotateActiveFile", "call", "append(tx.db.BPTreeRootIdxes, BPTreeRootIdx)"),
-  ("tx.go:rotateActiveFile", "call", "NewTree()"),
-  ("tx.go:rotateActiveFile", "call", "NewTree()"),
-  ("tx.go:rotateActiveFile", "call", "tx.db.getDataPath(tx.db.MaxFileID)"),
-  ("tx.go:rotateActiveFile", "call", "NewDataFile(path, tx.db.opt.SegmentSize, tx.db.opt.RWMode)")]
-
-/-- **the appliers, regenerated**: both appliers of every structure (the one `Commit` uses and the one `Open`
-uses), the rotation and the scan of the data files are, line for line, the ones the model was written from. -/
-theorem appliers_ok : applierStmts = expectedApplierStmts := by decide +kernel
-
-/-- the lines of the transactional API (tx_list.go, tx_set.go, tx_zset.go, the key/value writes, `tx.put`) that
-`Nuts.Model.Tx` (`txPut`, `txRPush`, `txPop`, `txLRem`, `txLSet`, `txLTrim`, `txSAdd`, `txSPop`, `txZAdd`, `txZPop`,
-…) was written from: what each call validates against the committed state and which record it queues -/
-def expectedTxApiStmts : List (String × String × String) := [
-  ("tx.go:checkTxIsClosed", "if", "tx.db == nil"),
-  ("tx.go:put", "call", "tx.checkTxIsClosed()"),
-  ("tx.go:put", "if", "!tx.writable"),
-  ("tx.go:put", "if", "len(key) == 0"),
-  ("tx.go:put", "call", "append(tx.pendingWrites, &Entry{ Key: key, Value: value, Meta: &MetaData{ keySize: uint32(len(key)), valueSize: uint32(len(value)), timestamp: timestamp, Flag: flag, TTL: ttl, bucket: []byte(bucket), bucketSize: uint32(len(bucket)), status: UnCommitted, ds: ds, txID: tx.id, }, })"),
-  ("tx_bptree.go:Delete", "call", "tx.checkTxIsClosed()"),
-  ("tx_bptree.go:Delete", "return", "tx.put(bucket, key, nil, Persistent, DataDeleteFlag, uint64(time.Now().Unix()), DataStructureBPTree)"),
-  ("tx_list.go:RPop", "call", "tx.RPeek(bucket, key)"),
-  ("tx_list.go:RPop", "return", "tx.push(bucket, key, DataRPopFlag, item)"),
-  ("tx_list.go:RPeek", "call", "tx.checkTxIsClosed()"),
-  ("tx_list.go:RPeek", "if", "!ok"),
-  ("tx_list.go:RPeek", "call", "tx.db.ListIdx[bucket].RPeek(string(key))"),
-  ("tx_list.go:push", "range", "values"),
-  ("tx_list.go:push", "call", "tx.put(bucket, key, value, Persistent, flag, uint64(time.Now().Unix()), DataStructureList)"),
-  ("tx_list.go:RPush", "call", "tx.checkTxIsClosed()"),
-  ("tx_list.go:RPush", "if", "strings.Contains(string(key), SeparatorForListKey)"),
-  ("tx_list.go:RPush", "return", "ErrSeparatorForListKey()"),
-  ("tx_list.go:RPush", "return", "tx.push(bucket, key, DataRPushFlag, values...)"),
-  ("tx_list.go:LPush", "call", "tx.checkTxIsClosed()"),
-  ("tx_list.go:LPush", "if", "strings.Contains(string(key), SeparatorForListKey)"),
-  ("tx_list.go:LPush", "return", "ErrSeparatorForListKey()"),
-  ("tx_list.go:LPush", "return", "tx.push(bucket, key, DataLPushFlag, values...)"),
-  ("tx_list.go:LPop", "call", "tx.LPeek(bucket, key)"),
-  ("tx_list.go:LPop", "return", "tx.push(bucket, key, DataLPopFlag, item)"),
-  ("tx_list.go:LPeek", "call", "tx.checkTxIsClosed()"),
-  ("tx_list.go:LPeek", "if", "!ok"),
-  ("tx_list.go:LPeek", "call", "tx.db.ListIdx[bucket].LPeek(string(key))"),
-  ("tx_list.go:LSize", "call", "tx.checkTxIsClosed()"),
-  ("tx_list.go:LSize", "if", "!ok"),
-  ("tx_list.go:LSize", "return", "tx.db.ListIdx[bucket].Size(string(key))"),
-  ("tx_list.go:LRange", "call", "tx.checkTxIsClosed()"),
-  ("tx_list.go:LRange", "if", "!ok"),
-  ("tx_list.go:LRange", "return", "tx.db.ListIdx[bucket].LRange(string(key), start, end)"),
-  ("tx_list.go:LRem", "call", "tx.LSize(bucket, key)"),
-  ("tx_list.go:LRem", "if", "count > size || count < -size"),
-  ("tx_list.go:LRem", "call", "buffer.Write([]byte(strconv2.IntToStr(count)))"),
-  ("tx_list.go:LRem", "call", "buffer.Write([]byte(SeparatorForListKey))"),
-  ("tx_list.go:LRem", "call", "buffer.Write(value)"),
-  ("tx_list.go:LRem", "call", "buffer.Bytes()"),
-  ("tx_list.go:LRem", "call", "tx.push(bucket, key, DataLRemFlag, newValue)"),
-  ("tx_list.go:LRem", "call", "tx.db.ListIdx[bucket].LRemNum(string(key), count, value)"),
-  ("tx_list.go:LSet", "call", "tx.checkTxIsClosed()"),
-  ("tx_list.go:LSet", "if", "!ok"),
-  ("tx_list.go:LSet", "if", "!ok"),
-  ("tx_list.go:LSet", "call", "tx.LSize(bucket, key)"),
-  ("tx_list.go:LSet", "if", "index < 0 || index >= size"),
-  ("tx_list.go:LSet", "call", "buffer.Write(key)"),
-  ("tx_list.go:LSet", "call", "buffer.Write([]byte(SeparatorForListKey))"),
-  ("tx_list.go:LSet", "call", "[]byte(strconv2.IntToStr(index))"),
-  ("tx_list.go:LSet", "call", "buffer.Write(indexBytes)"),
-  ("tx_list.go:LSet", "call", "buffer.Bytes()"),
-  ("tx_list.go:LSet", "return", "tx.push(bucket, newKey, DataLSetFlag, value)"),
-  ("tx_list.go:LTrim", "call", "tx.checkTxIsClosed()"),
-  ("tx_list.go:LTrim", "if", "!ok"),
-  ("tx_list.go:LTrim", "if", "!ok"),
-  ("tx_list.go:LTrim", "call", "tx.LRange(bucket, key, start, end)"),
-  ("tx_list.go:LTrim", "call", "buffer.Write(key)"),
-  ("tx_list.go:LTrim", "call", "buffer.Write([]byte(SeparatorForListKey))"),
-  ("tx_list.go:LTrim", "call", "buffer.Write([]byte(strconv2.IntToStr(start)))"),
-  ("tx_list.go:LTrim", "call", "buffer.Bytes()"),
-  ("tx_list.go:LTrim", "return", "tx.push(bucket, newKey, DataLTrimFlag, []byte(strconv2.IntToStr(end)))"),
-  ("tx_list.go:ErrSeparatorForListKey", "return", "errors.New(\"contain separator (\" + SeparatorForListKey + \") for List key\")"),
-  ("tx_set.go:sPut", "range", "items"),
-  ("tx_set.go:sPut", "call", "tx.put(bucket, key, item, Persistent, dataFlag, uint64(time.Now().Unix()), DataStructureSet)"),
-  ("tx_set.go:SAdd", "return", "tx.sPut(bucket, key, DataSetFlag, items...)"),
-  ("tx_set.go:SRem", "return", "tx.sPut(bucket, key, DataDeleteFlag, items...)"),
-  ("tx_set.go:SAreMembers", "call", "tx.checkTxIsClosed()"),
-  ("tx_set.go:SAreMembers", "if", "ok"),
-  ("tx_set.go:SAreMembers", "return", "sets.SAreMembers(string(key), items...)"),
-  ("tx_set.go:SAreMembers", "return", "ErrBucketAndKey(bucket, key)"),
-  ("tx_set.go:SIsMember", "call", "tx.checkTxIsClosed()"),
-  ("tx_set.go:SIsMember", "if", "ok"),
-  ("tx_set.go:SIsMember", "if", "!set.SIsMember(string(key), item)"),
-  ("tx_set.go:SIsMember", "return", "ErrBucketAndKey(bucket, key)"),
-  ("tx_set.go:SIsMember", "return", "ErrBucketAndKey(bucket, key)"),
-  ("tx_set.go:SMembers", "call", "tx.checkTxIsClosed()"),
-  ("tx_set.go:SMembers", "if", "ok"),
-  ("tx_set.go:SMembers", "return", "set.SMembers(string(key))"),
-  ("tx_set.go:SMembers", "return", "ErrBucketAndKey(bucket, key)"),
-  ("tx_set.go:SHasKey", "call", "tx.checkTxIsClosed()"),
-  ("tx_set.go:SHasKey", "if", "ok"),
-  ("tx_set.go:SHasKey", "return", "set.SHasKey(string(key))"),
-  ("tx_set.go:SHasKey", "return", "ErrBucketAndKey(bucket, key)"),
-  ("tx_set.go:SPop", "call", "tx.checkTxIsClosed()"),
-  ("tx_set.go:SPop", "if", "ok"),
-  ("tx_set.go:SPop", "range", "tx.db.SetIdx[bucket].M[string(key)]"),
-  ("tx_set.go:SPop", "return", "[]byte(item)"),
-  ("tx_set.go:SPop", "return", "tx.sPut(bucket, key, DataDeleteFlag, []byte(item))"),
-  ("tx_set.go:SPop", "return", "ErrBucketAndKey(bucket, key)"),
-  ("tx_set.go:SCard", "call", "tx.checkTxIsClosed()"),
-  ("tx_set.go:SCard", "if", "ok"),
-  ("tx_set.go:SCard", "return", "set.SCard(string(key))"),
-  ("tx_set.go:SCard", "return", "ErrBucketAndKey(bucket, key)"),
-  ("tx_set.go:SDiffByOneBucket", "call", "tx.checkTxIsClosed()"),
-  ("tx_set.go:SDiffByOneBucket", "if", "ok"),
-  ("tx_set.go:SDiffByOneBucket", "return", "set.SDiff(string(key1), string(key2))"),
-  ("tx_set.go:SDiffByOneBucket", "return", "ErrBucketAndKey(bucket, key1)"),
-  ("tx_set.go:SDiffByTwoBuckets", "call", "tx.checkTxIsClosed()"),
-  ("tx_set.go:SDiffByTwoBuckets", "if", "!ok"),
-  ("tx_set.go:SDiffByTwoBuckets", "return", "ErrBucketAndKey(bucket1, key1)"),
-  ("tx_set.go:SDiffByTwoBuckets", "if", "!ok"),
-  ("tx_set.go:SDiffByTwoBuckets", "return", "ErrBucketAndKey(bucket2, key2)"),
-  ("tx_set.go:SDiffByTwoBuckets", "range", "set1.M[string(key1)]"),
-  ("tx_set.go:SDiffByTwoBuckets", "if", "!ok"),
-  ("tx_set.go:SDiffByTwoBuckets", "call", "append(list, []byte(item1))"),
-  ("tx_set.go:SMoveByOneBucket", "call", "tx.checkTxIsClosed()"),
-  ("tx_set.go:SMoveByOneBucket", "if", "ok"),
-  ("tx_set.go:SMoveByOneBucket", "return", "set.SMove(string(key1), string(key2), item)"),
-  ("tx_set.go:SMoveByTwoBuckets", "call", "tx.checkTxIsClosed()"),
-  ("tx_set.go:SMoveByTwoBuckets", "if", "!ok"),
-  ("tx_set.go:SMoveByTwoBuckets", "return", "ErrBucketAndKey(bucket1, key1)"),
-  ("tx_set.go:SMoveByTwoBuckets", "if", "!ok"),
-  ("tx_set.go:SMoveByTwoBuckets", "return", "ErrBucketAndKey(bucket2, key1)"),
-  ("tx_set.go:SMoveByTwoBuckets", "if", "!set1.SHasKey(string(key1))"),
-  ("tx_set.go:SMoveByTwoBuckets", "return", "ErrNotFoundKeyInBucket(bucket1, key1)"),
-  ("tx_set.go:SMoveByTwoBuckets", "if", "!set2.SHasKey(string(key2))"),
-  ("tx_set.go:SMoveByTwoBuckets", "return", "ErrNotFoundKeyInBucket(bucket2, key2)"),
-  ("tx_set.go:SMoveByTwoBuckets", "if", "!ok"),
-  ("tx_set.go:SMoveByTwoBuckets", "call", "set2.SAdd(string(key2), item)"),
-  ("tx_set.go:SMoveByTwoBuckets", "call", "set1.SRem(string(key1), item)"),
-  ("tx_set.go:SUnionByOneBucket", "call", "tx.checkTxIsClosed()"),
-  ("tx_set.go:SUnionByOneBucket", "if", "ok"),
-  ("tx_set.go:SUnionByOneBucket", "return", "set.SUnion(string(key1), string(key2))"),
-  ("tx_set.go:SUnionByTwoBuckets", "call", "tx.checkTxIsClosed()"),
-  ("tx_set.go:SUnionByTwoBuckets", "if", "!ok"),
-  ("tx_set.go:SUnionByTwoBuckets", "return", "ErrBucketAndKey(bucket1, key1)"),
-  ("tx_set.go:SUnionByTwoBuckets", "if", "!ok"),
-  ("tx_set.go:SUnionByTwoBuckets", "return", "ErrBucketAndKey(bucket2, key1)"),
-  ("tx_set.go:SUnionByTwoBuckets", "if", "!set1.SHasKey(string(key1))"),
-  ("tx_set.go:SUnionByTwoBuckets", "return", "ErrNotFoundKeyInBucket(bucket1, key1)"),
-  ("tx_set.go:SUnionByTwoBuckets", "if", "!set2.SHasKey(string(key2))"),
-  ("tx_set.go:SUnionByTwoBuckets", "return", "ErrNotFoundKeyInBucket(bucket2, key2)"),
-  ("tx_set.go:SUnionByTwoBuckets", "range", "set1.M[string(key1)]"),
-  ("tx_set.go:SUnionByTwoBuckets", "call", "append(list, []byte(item1))"),
-  ("tx_set.go:SUnionByTwoBuckets", "range", "set2.M[string(key2)]"),
-  ("tx_set.go:SUnionByTwoBuckets", "if", "!ok"),
-  ("tx_set.go:SUnionByTwoBuckets", "call", "append(list, []byte(item2))"),
-  ("tx_set.go:ErrBucketAndKey", "return", "errors.New(\"not found bucket:\" + bucket + \",key:\" + string(key))"),
-  ("tx_set.go:ErrNotFoundKeyInBucket", "return", "errors.New(string(key) + \" is not in the\" + bucket)"),
-  ("tx_zset.go:ZAdd", "if", "strings.Contains(string(key), SeparatorForZSetKey)"),
-  ("tx_zset.go:ZAdd", "return", "ErrSeparatorForZSetKey()"),
-  ("tx_zset.go:ZAdd", "call", "buffer.Write(key)"),
-  ("tx_zset.go:ZAdd", "call", "buffer.Write([]byte(SeparatorForZSetKey))"),
-  ("tx_zset.go:ZAdd", "call", "[]byte(strconv.FormatFloat(score, 'f', -1, 64))"),
-  ("tx_zset.go:ZAdd", "call", "buffer.Write(scoreBytes)"),
-  ("tx_zset.go:ZAdd", "call", "buffer.Bytes()"),
-  ("tx_zset.go:ZAdd", "return", "tx.put(bucket, newKey, val, Persistent, DataZAddFlag, uint64(time.Now().Unix()), DataStructureSortedSet)"),
-  ("tx_zset.go:ZMembers", "call", "tx.checkTxIsClosed()"),
-  ("tx_zset.go:ZMembers", "if", "!ok"),
-  ("tx_zset.go:ZCard", "call", "tx.ZMembers(bucket)"),
-  ("tx_zset.go:ZCard", "return", "len(members)"),
-  ("tx_zset.go:ZCount", "call", "tx.ZRangeByScore(bucket, start, end, opts)"),
-  ("tx_zset.go:ZCount", "return", "len(nodes)"),
-  ("tx_zset.go:ZPopMax", "call", "tx.ZPeekMax(bucket)"),
-  ("tx_zset.go:ZPopMax", "return", "tx.put(bucket, []byte(\" \"), []byte(\"\"), Persistent, DataZPopMaxFlag, uint64(time.Now().Unix()), DataStructureSortedSet)"),
-  ("tx_zset.go:ZPopMin", "call", "tx.ZPeekMin(bucket)"),
-  ("tx_zset.go:ZPopMin", "return", "tx.put(bucket, []byte(\" \"), []byte(\"\"), Persistent, DataZPopMinFlag, uint64(time.Now().Unix()), DataStructureSortedSet)"),
-  ("tx_zset.go:ZPeekMax", "call", "tx.checkTxIsClosed()"),
-  ("tx_zset.go:ZPeekMax", "if", "!ok"),
-  ("tx_zset.go:ZPeekMax", "return", "tx.db.SortedSetIdx[bucket].PeekMax()"),
-  ("tx_zset.go:ZPeekMin", "call", "tx.checkTxIsClosed()"),
-  ("tx_zset.go:ZPeekMin", "if", "!ok"),
-  ("tx_zset.go:ZPeekMin", "return", "tx.db.SortedSetIdx[bucket].PeekMin()"),
-  ("tx_zset.go:ZRangeByScore", "call", "tx.checkTxIsClosed()"),
-  ("tx_zset.go:ZRangeByScore", "if", "!ok"),
-  ("tx_zset.go:ZRangeByScore", "return", "tx.db.SortedSetIdx[bucket].GetByScoreRange(zset.SCORE(start), zset.SCORE(end), opts)"),
-  ("tx_zset.go:ZRangeByRank", "call", "tx.checkTxIsClosed()"),
-  ("tx_zset.go:ZRangeByRank", "if", "!ok"),
-  ("tx_zset.go:ZRangeByRank", "return", "tx.db.SortedSetIdx[bucket].GetByRankRange(start, end, false)"),
-  ("tx_zset.go:ZRem", "call", "tx.checkTxIsClosed()"),
-  ("tx_zset.go:ZRem", "if", "!ok"),
-  ("tx_zset.go:ZRem", "return", "tx.put(bucket, []byte(key), []byte(\"\"), Persistent, DataZRemFlag, uint64(time.Now().Unix()), DataStructureSortedSet)"),
-  ("tx_zset.go:ZRemRangeByRank", "call", "tx.checkTxIsClosed()"),
-  ("tx_zset.go:ZRemRangeByRank", "if", "!ok"),
-  ("tx_zset.go:ZRemRangeByRank", "call", "strconv2.IntToStr(start)"),
-  ("tx_zset.go:ZRemRangeByRank", "call", "strconv2.IntToStr(end)"),
-  ("tx_zset.go:ZRemRangeByRank", "return", "tx.put(bucket, []byte(newKey), []byte(newVal), Persistent, DataZRemRangeByRankFlag, uint64(time.Now().Unix()), DataStructureSortedSet)"),
-  ("tx_zset.go:ZRank", "call", "tx.checkTxIsClosed()"),
-  ("tx_zset.go:ZRank", "if", "!ok"),
-  ("tx_zset.go:ZRank", "return", "tx.db.SortedSetIdx[bucket].FindRank(string(key))"),
-  ("tx_zset.go:ZRevRank", "call", "tx.checkTxIsClosed()"),
-  ("tx_zset.go:ZRevRank", "if", "!ok"),
-  ("tx_zset.go:ZRevRank", "return", "tx.db.SortedSetIdx[bucket].FindRevRank(string(key))"),
-  ("tx_zset.go:ZScore", "call", "tx.checkTxIsClosed()"),
-  ("tx_zset.go:ZScore", "if", "!ok"),
-  ("tx_zset.go:ZScore", "if", "node != nil"),
-  ("tx_zset.go:ZScore", "call", "tx.db.SortedSetIdx[bucket].GetByKey(string(key))"),
-  ("tx_zset.go:ZScore", "return", "float64(node.Score())"),
-  ("tx_zset.go:ZGetByKey", "call", "tx.checkTxIsClosed()"),
-  ("tx_zset.go:ZGetByKey", "if", "!ok"),
-  ("tx_zset.go:ZGetByKey", "if", "node != nil"),
-  ("tx_zset.go:ZGetByKey", "call", "tx.db.SortedSetIdx[bucket].GetByKey(string(key))"),
-  ("tx_zset.go:ErrSeparatorForZSetKey", "return", "errors.New(\"contain separator (\" + SeparatorForZSetKey + \") for ZSet key\")")]
-
-/-- **the transactional API, regenerated** -/
-theorem tx_api_ok : txApiStmts = expectedTxApiStmts := by decide +kernel
-
-/-- **`Backup` is one read transaction.** Regenerated from db.go: the body of `DB.Backup` outside the function
-literal does nothing but call `db.View` (no file-system call, no other nutsdb call, no field of `*DB`), and the
-literal handed to `View` calls `filesystem.CopyDir` and nothing else — so every byte Backup reads from the
-directory is read while the read lock of the transaction is held. -/
-theorem backup_under_read_lock : backupShape = (["DB.View"], [], ["filesystem.CopyDir"]) := by decide
-
 /-- **`isFilterEntry`, regenerated.** The model's `isFilter` (which records Merge never rewrites) is the
 kernel that `tools/extract` regenerates from the SSA of `DB.isFilterEntry`, with every flag load bound to the
 record's flag and the call of `IsExpired` bound to the model's `isExpired` (itself the regenerated `IsExpired`
